@@ -44,4 +44,11 @@ VARIANTS = [
     V("C10-n03-rename-matrix-indices", "neutral",
       "        for i in range(numPoints[d]):\n            for j in range(numPoints[d]):\n                matrix[i, j] = self.grid.get_basis(d, j)(self.grid.get_coordinates_dim(d)[i])",
       "        for row in range(numPoints[d]):\n            for col in range(numPoints[d]):\n                matrix[row, col] = self.grid.get_basis(d, col)(self.grid.get_coordinates_dim(d)[row])", file=HZ),
+    # D9: the Gauss rule stored for the basis integrals is exact for degree p
+    V("C10-b30-basis-rule-one-point-short", "break", "        self.coords_gauss, self.weights_gauss = legendre.leggauss(int(self.p / 2) + 1)\n",
+      "        self.coords_gauss, self.weights_gauss = legendre.leggauss(int(self.p / 2))\n", "C10.D9", file="Grid.py"),
+    V("C10-b31-basis-rule-rounded-wrong-way", "break", "        self.coords_gauss, self.weights_gauss = legendre.leggauss(int(self.p / 2) + 1)\n",
+      "        self.coords_gauss, self.weights_gauss = legendre.leggauss(int((self.p + 1) / 2))\n", "C10.D9", file="Grid.py"),
+    V("C10-n30-basis-rule-floor-division", "neutral", "        self.coords_gauss, self.weights_gauss = legendre.leggauss(int(self.p / 2) + 1)\n",
+      "        self.coords_gauss, self.weights_gauss = legendre.leggauss(self.p // 2 + 1)\n", file="Grid.py"),
 ]
